@@ -371,7 +371,13 @@ def gen_conc_segments(nseg, seed, nthreads=(2, 4), oplen=(3, 14), prefix='conc')
                 lo, hi = 0, 0
             qx = rnd.sample([1, 2], dx['nq']) + [0, 0]
             lines.append('pre ' + expect_line(sx, shx, u + 1, ((0, 0), (0, 0)), ((0, 0), (0, 0), (0, 0)), (0, 0, 0), 100 * sx, lo, hi, (qx[0], qx[1])))
-            xown = dict(u=u, v=v, s=sx, sh=shx, early=rnd.random() < 0.5)
+            xown = dict(u=u, v=v, s=sx, sh=shx, early=rnd.random() < 0.5, s2=0)
+            if rnd.random() < 0.5:
+                # a second one on another mock function (v(int), destroyed before f(int)'s lists): released first by thread v
+                s2 = 2 * v + (2 if sx == 2 * v + 1 else 1)
+                lo2, hi2 = rnd.choice(bounds)
+                lines.append('pre ' + expect_line(s2, 50, u + 1, ((0, 0), (0, 0)), ((0, 0), (0, 0), (0, 0)), (0, 0, 0), 100 * s2, lo2, hi2, (0, 0)))
+                xown['s2'] = s2
         for t in range(T):
             own_slots = [2 * t + 1, 2 * t + 2]
             own_mock = t + 1 if t + 1 < NM_ID else 0
@@ -379,6 +385,10 @@ def gen_conc_segments(nseg, seed, nthreads=(2, 4), oplen=(3, 14), prefix='conc')
             live = {}
             if xown and xown['v'] == t:
                 live[xown['s']] = xown['sh']
+                if xown['s2']:
+                    live[xown['s2']] = 50
+                    if xown['early'] or rnd.random() < 0.5:
+                        lines.append('thr %d release %d' % (t, xown['s2'])); del live[xown['s2']]
                 if xown['early']:
                     lines.append('thr %d %s %d' % (t, rnd.choice(['release', 'query', 'release']), xown['s']))
                     if lines[-1].split()[2] == 'release':
